@@ -471,7 +471,7 @@ func crashExec(ops []string) (dops []string, res []string) {
 		case "sleep":
 			time.Sleep(2 * time.Millisecond)
 		case "reopen":
-			db.Close()
+			closeWatched(db, "crash suite, reopen")
 			db.VerifStopOracle()
 			db, err = originium.Open(r.dir, cfg)
 			if err != nil {
@@ -480,7 +480,7 @@ func crashExec(ops []string) (dops []string, res []string) {
 		}
 	}
 	if db != nil {
-		db.Close()
+		closeWatched(db, "crash suite, end of workload")
 		db.VerifStopOracle()
 	}
 	r.mu.Lock()
